@@ -24,9 +24,34 @@ import (
 	"github.com/internetarchive/Zeno/pkg/models"
 )
 
+// The archiver (and with it the limiter's capacity and rate) can be started once per process: one
+// (capacity, rate) pair per driver process.  It comes from the `conf=` field of a single -input
+// (replay), else from the environment (ZV_ARCHRL_CONF=cap,rate, set per leg in the propdef), else
+// 2 @ 7/s.  Every generated input carries the pair; an input for another pair is not run by this
+// process (trivial case, tag other-conf) - the leg with that pair runs it.
+var arlCap, arlRate = 2.0, 7.0
+
+func arlConfString() string { return fmt.Sprintf("%g,%g", arlCap, arlRate) }
+
+func arlChooseConf() {
+	conf := os.Getenv("ZV_ARCHRL_CONF")
+	for i, a := range os.Args {
+		if a == "-input" && i+1 < len(os.Args) {
+			if c := parseKV(os.Args[i+1])["conf"]; c != "" {
+				conf = c
+			}
+		}
+	}
+	if a, b, ok := strings.Cut(conf, ","); ok {
+		c, e1 := strconv.ParseFloat(a, 64)
+		r, e2 := strconv.ParseFloat(b, 64)
+		if e1 == nil && e2 == nil && c > 0 && r > 0 {
+			arlCap, arlRate = c, r
+		}
+	}
+}
+
 const (
-	arlCap    = 5.0
-	arlRate   = 5.0
 	arlWindow = 1500 * time.Millisecond // how long a later item is watched for
 )
 
@@ -66,6 +91,7 @@ func must(err error) {
 }
 
 func setupArchRL() {
+	arlChooseConf()
 	arlPend = append(arlPend, corpusLines()...) // read before the Chdir below
 	var err error
 	arlDir, err = os.MkdirTemp("", "zv-archrl")
@@ -120,7 +146,15 @@ func genArchRL(r *Rng, i int, tier string) string {
 	for j := range sc {
 		sc[j] = strconv.Itoa(arlStatuses[r.Intn(len(arlStatuses))])
 	}
-	in := fmt.Sprintf("retry=%d items=%d script=%s", retry, 2+r.Intn(2), strings.Join(sc, ","))
+	in := fmt.Sprintf("conf=%s retry=%d items=%d script=%s", arlConfString(), retry, 2+r.Intn(2), strings.Join(sc, ","))
+	if r.Intn(5) == 0 {
+		// a burst: capacity + k items for one host at once, all answered 200
+		k := 2 + r.Intn(6)
+		if arlRate >= 20 {
+			k = int(arlRate) + r.Intn(int(arlRate)/2)
+		}
+		in = fmt.Sprintf("conf=%s retry=0 burst=%d", arlConfString(), int(arlCap)+k)
+	}
 	arlMu.Lock()
 	arlPend = append(arlPend, in)
 	arlMu.Unlock()
@@ -190,6 +224,13 @@ type arrival struct {
 func execArchRL(in string) Result {
 	kv := parseKV(in)
 	retry := retryOf(in)
+	if c := kv["conf"]; c != "" && c != arlConfString() {
+		return Result{Term: fmt.Sprintf("AC (ZP 0) %s %s [] ANone", coqFl(arlCap), coqFl(arlRate)), Tags: []string{"other-conf(not run by this process)"}}
+	}
+	burst, _ := strconv.Atoi(kv["burst"])
+	if burst > 400 {
+		burst = 400
+	}
 	nitems, _ := strconv.Atoi(kv["items"])
 	if nitems < 1 || nitems > 4 {
 		nitems = 2
@@ -251,6 +292,35 @@ func execArchRL(in string) Result {
 
 	state := "ANone"
 	submitted := 0
+	readState := func() {
+		if st, ok := archiver.VerifC13HostState(host); ok {
+			state = fmt.Sprintf("(ASt2 %s %s %s %s)", coqZi(int64(st.Fails)), coqFl(st.Rate), coqFl(st.Cap), coqFl(st.Ideal))
+		}
+	}
+	if burst > 0 {
+		// all items at once; the burst is watched for the window (items still held back stay with
+		// their workers and are not observed any more)
+		nitems = 0
+		chs := make([]chan struct{}, burst)
+		for k := 1; k <= burst; k++ {
+			chs[k-1] = submit(k)
+			submitted++
+		}
+		select {
+		case <-chs[0]:
+			readState()
+		case <-time.After(30 * time.Second):
+		}
+		deadline := time.After(arlWindow)
+	burstWait:
+		for _, ch := range chs {
+			select {
+			case <-ch:
+			case <-deadline:
+				break burstWait
+			}
+		}
+	}
 	for k := 1; k <= nitems; k++ {
 		ch := submit(k)
 		submitted++
@@ -269,9 +339,7 @@ func execArchRL(in string) Result {
 		case <-time.After(limit):
 		}
 		if k == 1 && back {
-			if st, ok := archiver.VerifC13HostState(host); ok {
-				state = fmt.Sprintf("(ASt %s %s)", coqZi(int64(st.Fails)), coqFl(st.Rate))
-			}
+			readState()
 		}
 		if !back {
 			break
@@ -295,7 +363,10 @@ func execArchRL(in string) Result {
 			}
 		}
 	}
-	tags := []string{fmt.Sprintf("max-retry:%d", retry)}
+	tags := []string{fmt.Sprintf("max-retry:%d", retry), "conf:" + arlConfString()}
+	if burst > 0 {
+		tags = append(tags, "burst>capacity")
+	}
 	if throttled {
 		tags = append(tags, "throttle-answered")
 	}
@@ -308,7 +379,7 @@ func execArchRL(in string) Result {
 	return Result{
 		Term:       fmt.Sprintf("AC %s %s %s %s %s", coqZi(int64(retry)), coqFl(arlCap), coqFl(arlRate), coqList(terms), state),
 		Tags:       tags,
-		Nontrivial: throttled && submitted > 1,
+		Nontrivial: throttled && submitted > 1 || burst > int(arlCap),
 	}
 }
 
